@@ -79,6 +79,7 @@ def h_chunk(f, ns, sched, start='zero', pastify=False, oracle='both'):
     simple = all(c[0] == 'var' for c in refsem.kids(f)) and op not in ('var',)
     bounds = [c for c in f[1:] if isinstance(c, int)]
     a, b = (bounds + [None, None])[:2]
+    cache = {}
 
     def body(env):
         A = env.A
@@ -107,9 +108,9 @@ def h_chunk(f, ns, sched, start='zero', pastify=False, oracle='both'):
                 res.append(('offline', A.eq(got, refct.val(A, off, tau))))
         if oracle in ('both', 'rho') and simple:
             if len(vs) == 2 and len(refsem.kids(f)) == 2:
-                want = refct.ref_binary(A, op, sigs['x'], sigs['y'], tau, S, a, b)
+                want = symx.memo(env, cache, 'want', lambda: refct.ref_binary(A, op, sigs['x'], sigs['y'], tau, S, a, b))
             else:
-                want = refct.ref_unary(A, op, sigs['x'], tau, a, b)
+                want = symx.memo(env, cache, 'want', lambda: refct.ref_unary(A, op, sigs['x'], tau, a, b))
             res.append(('rho_ct', A.eq(got, want)))
         return res
     return body
